@@ -408,3 +408,8 @@ brk("c03-new-parse-only-check", ["C03"], (C, "    @classmethod\n    def from_cbo
 brk("c03-unnamed-filter", ["C03"], (C, "        return {k: v[1].to_obj() for k, v in self.value.items()}", "        return {k: v[1].to_obj() for k, v in self.value.items() if k}"))
 brk("c03-parse-simplified-model", ["C03"], (IO, "            suit = SuitEnvelopeTagged.from_cbor(data)\n            return suit.to_obj()\n\n    @classmethod\n    def from_suit_file_simplified", "            suit = SuitEnvelopeTaggedSimplified.from_cbor(data)\n            return suit.to_obj()\n\n    @classmethod\n    def from_suit_file_simplified"))
 ben("c03-json-explicit-default", ["C03"], (IO, "json.dump(cls.parse_json_submanifests(data) if parse_hierarchy is True else data, fh, sort_keys=False)", "json.dump(cls.parse_json_submanifests(data) if parse_hierarchy is True else data, fh)"))
+
+# ------------------------------------------------------------------ early exits that skip the work (generic.sole_outcome)
+brk("c16-early-return-skips-storage-file", ["C16"], (IMG, "        # The suit storage file for update path contains only update candidate info; installed envelope is not touched\n        uci_hex = IntelHex()\n", "        if update_candidate_size == 0:\n            return\n        uci_hex = IntelHex()\n"))
+brk("c12-early-return-skips-record", ["C12"], (MPI, "        \"\"\"Generate HEX file for a single manifest role.\"\"\"\n", "        \"\"\"Generate HEX file for a single manifest role.\"\"\"\n        if not class_name:\n            return\n"))
+brk("c01-early-return-skips-digest", ["C01"], (ENV, "    def update_digest(self):\n        \"\"\"Update digest in the envelope.\"\"\"\n", "    def update_digest(self):\n        \"\"\"Update digest in the envelope.\"\"\"\n        if getattr(self, \"_digest_final\", False):\n            return\n"))
